@@ -63,7 +63,11 @@ func (s *Staking) replaySlashing(ctx *context) ([]Evidence, []Evidence, []*commo
 		return nil, nil, nil, fmt.Errorf("empty evidences of number: %d", header.Number)
 	}
 
-	parentHeight := new(big.Int).Set(ctx.chain.CurrentHeader().Number)
+	// The evidences of a block are judged against the height of its parent.  The
+	// block is not necessarily being executed on top of the local head (side chain
+	// verification, any later re-execution), so the height must come from the
+	// header itself and not from the chain's current header.
+	parentHeight := new(big.Int).Sub(header.Number, common.Big1())
 
 	var verifiedEvidences []Evidence
 	for _, evidence := range evidences {
@@ -134,7 +138,7 @@ func (s *Staking) slashing(ctx *context) ([]Evidence, []Evidence, []*common.Addr
 
 	var evidences = make([]Evidence, len(s.evidences))
 	copy(evidences, s.evidences)
-	parentHeight := s.blockChain.CurrentHeader().Number //check parent block
+	parentHeight := new(big.Int).Sub(ctx.header.Number, common.Big1()) //check parent block
 	confirmedEvidences, pendingEvidences, affectedValidators := s.processEvidences(ctx.config, ctx.db, ctx.header, parentHeight, ctx.receipt, evidences)
 	s.evidences = pendingEvidences
 	affected = len(affectedValidators)
